@@ -452,6 +452,16 @@ def random_recv_script(rng, consts):
     method = rng.choice(["user", "user", "ldk"])
     any_amt = rng.random() < 0.08
     ops.append({"op": "reg", "node": dst, "reg": 1, "amt": None if any_amt else A, "expiry": exp, "min_cltv": minc, "method": method})
+    regmeta = rng.random() < 0.15
+    if regmeta:
+        ops[-1]["meta"] = rng.randint(1, 9)
+    # the recipient's channels that accept under-paying HTLCs; the last forwarding nodes may intercept
+    rchans = sorted({r[-1] for r in routes})
+    if rng.random() < 0.4:
+        tp["cfg"]["underpay"] = rchans if rng.random() < 0.6 else rng.sample(rchans, rng.randint(0, len(rchans)))
+    skimmy = kind != "par" and rng.random() < 0.6
+    if skimmy:
+        tp["cfg"]["intercept"] = True
     other = None
     if rng.random() < 0.45:
         # a second registration: another hash, or the same hash with another amount
@@ -501,6 +511,22 @@ def random_recv_script(rng, consts):
     if other and other.get("same_hash_as") and rng.random() < 0.5:
         # pay the second registration of the same hash (its own amount) instead / as well
         parts.append({"amt": other["amt"], "total": other["amt"], "secret": {"reg": 2}, "delta": good_delta, "reg": 2})
+    # ---- onion fields: custom TLVs (even type: must be understood) common to all parts, one part deviating
+    if scen != "keysend" and rng.random() < 0.4:
+        univ = [65536, 65537, 65538, 65539, 70001]
+        base = {t: rng.choice([1, 2]) for t in rng.sample(univ, rng.randint(0, 3))}
+        for p in parts:
+            p["tlvs"] = dict(base)
+        if rng.random() < 0.7:
+            j = rng.choice([0, len(parts) - 1, rng.randrange(len(parts))])
+            t = rng.choice(univ if rng.random() < 0.5 or not base else list(base))
+            d = parts[j]["tlvs"]
+            if t in d and rng.random() < 0.5:
+                del d[t]
+            else:
+                d[t] = 3 - d[t] if t in d else rng.choice([1, 2])
+    if scen != "keysend" and rng.random() < (0.5 if regmeta else 0.05):
+        parts[rng.randrange(len(parts))]["meta"] = rng.choice(["none", "flip"])
     rng.shuffle(parts) if rng.random() < 0.3 else None
     pid = 0
     for i, p in enumerate(parts):
@@ -513,6 +539,17 @@ def random_recv_script(rng, consts):
         else:
             ops.append({"op": "send", "from": 0, "id": pid, "reg": p.get("reg", 1), "paths": [rt], "amts": [p["amt"]],
                         "total": p["total"], "secret": p["secret"], "cltv": p["delta"]})
+            if p.get("tlvs"):
+                ops[-1]["tlvs"] = [[t, v] for t, v in sorted(p["tlvs"].items())]
+            if p.get("meta"):
+                ops[-1]["meta"] = p["meta"]
+            # the last forwarding node skims a fee off this part and / or reports one
+            if skimmy and len(rt) > 1 and rng.random() < 0.5 and p["amt"] > 300000:
+                short = rng.choice([1, 2, 20, 1000, 1000, 250000])
+                ops[-1]["skim"] = [short]
+                ops[-1]["skim_tlv"] = [rng.choice([None, None, None, -1, 0, short - 1, short, short + 1, 2 * short])]
+            elif rng.random() < 0.04:
+                ops[-1]["skim_tlv"] = [rng.choice([1, 1000])]
         ops.append({"op": "pump"})
         r = rng.random()
         if r < 0.15:
@@ -528,15 +565,16 @@ def random_recv_script(rng, consts):
     # ---- the user's answer
     tgt = {"fresh": 701, "node": dst} if scen == "keysend" else {"reg": 1}
     r = rng.random()
+    known = rng.random() < 0.35
     if r < 0.45:
-        ops.append(dict({"op": "claim"}, **tgt))
+        ops.append(dict({"op": "claim", "known": known}, **tgt))
     elif r < 0.60:
         ops.append(dict({"op": "failback"}, **tgt))
     elif r < 0.90 and scen != "keysend":
         off = rng.choice([-2, -1, -1, 0, 0, 1])
         ops.append({"op": "block_to_deadline", "reg": 1, "offset": off})
         ops.append({"op": "pump"}) if rng.random() < 0.5 else None
-        ops.append(dict({"op": rng.choice(["claim", "claim", "claim", "failback"])}, **tgt))
+        ops.append(dict({"op": rng.choice(["claim", "claim", "claim", "failback"]), "known": known}, **tgt))
     ops = [o for o in ops if o]
     ops.append({"op": "pump"})
     if rng.random() < 0.3:
@@ -553,35 +591,65 @@ def random_recv_script(rng, consts):
 
 # --------------------------------------------------------------------------- PayRecvMC behaviours -> paynet scripts
 
+FLD_TLVS = {"none": [], "o1": [[65537, 1]], "o1b": [[65537, 2]], "o2": [[65539, 1]], "e1": [[65536, 1]], "e1b": [[65536, 2]],
+            "e2": [[65538, 1]], "e1o1": [[65536, 1], [65537, 1]], "e1e2": [[65536, 1], [65538, 1]], "o1o2": [[65537, 1], [65539, 1]], "o1e2": [[65537, 1], [65538, 1]],
+            "mnone": [], "mflip": []}
+
+
 def compile_recv_script(s, rng, consts):
-    """A behaviour of PayRecvMC (parts with their onion class, ticks, blocks, the user's answer)
-    compiled to engine ops over C parallel channels between sender 0 and recipient 1."""
+    """A behaviour of PayRecvMC (parts with their onion class, onion fields, what the last forwarding node skims
+    and reports, ticks, blocks, the user's answer) compiled to engine ops: over C parallel channels between sender
+    0 and recipient 1, or, when a part is skimmed, over the fan 0 -chan b-> B_b -chan C+b-> D whose B_b intercept."""
     C, BUF = s["c"], consts["fail_back_buffer"]
     regmin = s["regmin"]
+    parts = [o for o in s["ops"] if o["op"] == "part"]
+    fan = any(o.get("sk", "no") != "no" for o in parts)
+    D = C + 1 if fan else 1
     off = {"b0": BUF, "b1": BUF + 1, "b2": BUF + 2, "far": 71, "far2": 80, "m-1": regmin - 1, "m0": regmin}
-    ops = [{"op": "reg", "node": 1, "reg": 1, "amt": s["regamt"] * MSAT, "expiry": 3600,
+    ops = [{"op": "reg", "node": D, "reg": 1, "amt": s["regamt"] * MSAT, "expiry": 3600,
             "min_cltv": regmin if regmin else None, "method": rng.choice(["user", "user", "ldk"])}]
-    if any(o["op"] == "part" and o["sec"] == "other" for o in s["ops"]):
-        ops.append({"op": "reg", "node": 1, "reg": 2, "amt": MSAT, "expiry": 3600, "method": "user"})
+    if s.get("regmeta", 0):
+        ops[0]["meta"] = s["regmeta"]
+    if any(o["sec"] == "other" for o in parts):
+        ops.append({"op": "reg", "node": D, "reg": 2, "amt": MSAT, "expiry": 3600, "method": "user"})
     i = 0
     for o in s["ops"]:
         t = o["op"]
         if t == "part":
             i += 1
+            b = (i - 1) % C + 1
             sec = {"ok": {"reg": 1}, "flip": {"reg": 1, "flip": rng.randrange(256)}, "other": {"reg": 2}}[o["sec"]]
-            ops.append({"op": "send", "from": 0, "id": i, "reg": 1, "paths": [[(i - 1) % C + 1]], "amts": [o["amt"] * MSAT],
-                        "total": o["tot"] * MSAT, "secret": sec, "cltv": off[o["cl"]] - 1})
+            send = {"op": "send", "from": 0, "id": i, "reg": 1, "paths": [[b, C + b] if fan else [b]], "amts": [o["amt"] * MSAT],
+                    "total": o["tot"] * MSAT, "secret": sec, "cltv": off[o["cl"]] - 1}
+            f = o.get("f", "none")
+            if FLD_TLVS[f]:
+                send["tlvs"] = FLD_TLVS[f]
+            if f in ("mnone", "mflip"):
+                send["meta"] = "none" if f == "mnone" else "flip"
+            sk = o.get("sk", "no")
+            if sk == "tlv":
+                send["skim_tlv"] = [rng.choice([1, 20, 1000])]
+            elif sk != "no":
+                short = rng.choice([2, 20, 1000, 250000])
+                send["skim"] = [short]
+                send["skim_tlv"] = [{"s0": rng.choice([-1, 0]), "s-1": short - 1, "s=": rng.choice([None, short]), "s+": short + 1}[sk]]
+            ops.append(send)
         elif t == "tick":
-            ops.append({"op": "tick", "node": 1})
+            ops.append({"op": "tick", "node": D})
         elif t == "block":
             ops.append({"op": "block", "n": o["n"]})
         elif t == "claim":
-            ops.append({"op": "claim", "reg": 1})
+            ops.append({"op": "claim", "reg": 1, "known": o.get("kind") == "claimk"})
         elif t == "failback":
             ops.append({"op": "failback", "reg": 1})
         ops.append({"op": "pump"})
     ops.append({"op": "settle"})
-    return {"cfg": {"topo": "par", "n": C, "style": rng.choice([0, 2, 4])}, "ops": ops}
+    cfg = {"topo": "fan" if fan else "par", "n": C, "style": rng.choice([0, 2, 4])}
+    if fan:
+        cfg["intercept"] = True
+    if s.get("up"):
+        cfg["underpay"] = list(range(C + 1, 2 * C + 1)) if fan else list(range(1, C + 1))
+    return {"cfg": cfg, "ops": ops}
 
 
 # --------------------------------------------------------------------------- the two checks
@@ -615,6 +683,15 @@ def trace_stats(path):
             e = r["ev"]
             if e == "event":
                 inc("ev_" + r["kind"])
+                if r["kind"] == "PaymentClaimable":
+                    if r.get("skimmed", 0) > 0:
+                        inc("claimable_skimmed")
+                    if r.get("tlvs"):
+                        inc("claimable_with_tlvs")
+                        if any(t[0] % 2 == 0 for t in r["tlvs"]):
+                            inc("claimable_with_even_tlv")
+                    if r.get("meta", 0) > 0:
+                        inc("claimable_with_metadata")
                 if r["kind"] == "PaymentSent":
                     sent[r["pid"]] = sent.get(r["pid"], 0) + 1
                 elif r["kind"] == "PaymentFailed":
@@ -630,15 +707,28 @@ def trace_stats(path):
                 inc("send_" + r["res"])
                 if len(r["parts"]) > 1:
                     inc("send_multipart")
+                if r.get("tlvs"):
+                    inc("send_with_tlvs")
+                if r.get("meta", 0) == 2:
+                    inc("send_foreign_metadata")
+                if any(x["amt"] < x.get("oamt", x["amt"]) for x in r["parts"]):
+                    inc("send_skimmed_part")
             elif e == "msg":
                 if r["kind"] != "update_add_htlc":
                     inc("msg_" + r["kind"])
+                elif r.get("skim", 0) > 0:
+                    inc("add_with_skimmed_fee")
             elif e in ("claim", "failback", "restart", "save", "tick", "block", "abandon", "panic", "quiet"):
                 inc(e)
+                if e == "claim" and r.get("known"):
+                    inc("claim_known")
                 if e == "restart" and r.get("stale"):
                     inc("restart_stale")
                 if e == "quiet" and r.get("settled"):
                     inc("quiet_chain_settled")
+            elif e == "open":
+                if r.get("underpay"):
+                    inc("runs_with_underpay_channels")
             elif e == "chain":
                 inc("chain_commitment" if r["what"] == "commitment" else "chain_htlc_claimed" if r["preimage"] else "chain_htlc_timeout")
     return c
@@ -664,8 +754,13 @@ def mutate(recs, fn):
 
 def selftest(pid, wd, tpath, muts):
     """Binding self-test: each corruption of an accepted trace must be rejected by the trace spec."""
-    with open(tpath) as f:
-        recs = [json.loads(x) for x in f]
+    recs = []
+    for n, tp in enumerate([tpath] if isinstance(tpath, str) else list(tpath)):
+        with open(tp) as f:
+            for x in f:
+                r = json.loads(x)
+                r["run"] += 1000000 * n
+                recs.append(r)
     done, rejected, names = 0, 0, []
     for name, fn in muts:
         m = mutate(recs, fn)
@@ -708,7 +803,34 @@ def run_probes(pid, binpath, seed, probes):
     return out
 
 
-def run_check(pid, tier, seed, mc_cfgs, compile_fn, random_fn, n_tlc, n_rand, need, selftests, assumptions, pick=None, probes=()):
+def run_spec_mutants(pid, module, cfgs):
+    """Design models with a planted defect: TLC must find the observable specification violated (a deadlock:
+    an unmet guard of the specification) -- otherwise the specification is too weak there."""
+    out = []
+    wd = vlib.workdir(pid)
+    for cfg in cfgs:
+        meta = os.path.join(wd, "meta-" + cfg.replace(".cfg", ""))
+        cmd = ["timeout", "600"] + vlib._java(xmx="8g", xss="512m") + ["-workers", "12", "-metadir", meta, "-cleanup", "-noGenerateSpecTE",
+                                                                         "-config", cfg, module + ".tla"]
+        p = subprocess.run(cmd, cwd=vlib.SPEC, stdout=subprocess.PIPE, stderr=subprocess.STDOUT, text=True)
+        subprocess.run(["rm", "-rf", meta])
+        with open(os.path.join(wd, "tlc-%s.out" % cfg.replace(".cfg", "")), "w") as f:
+            f.write(p.stdout)
+        if p.returncode == 124:
+            raise vlib.ToolError("TLC timeout on %s/%s" % (module, cfg))
+        refuted = "Error: Deadlock reached" in p.stdout or " is violated" in p.stdout
+        if not refuted and "Model checking completed. No error has been found" not in p.stdout:
+            vlib.log(p.stdout[-2000:])
+            raise vlib.ToolError("TLC error on %s/%s" % (module, cfg))
+        vlib.log("[mc-mutant] %s: %s" % (cfg, "refuted" if refuted else "NOT refuted"))
+        if not refuted:
+            raise vlib.ToolError("spec mutant %s/%s is not refuted: the observable specification does not notice the planted defect" % (module, cfg))
+        out.append({"cfg": cfg, "refuted": True})
+    return out
+
+
+def run_check(pid, tier, seed, mc_cfgs, compile_fn, random_fn, n_tlc, n_rand, need, selftests, assumptions, pick=None, probes=(),
+              mc_mutants=()):
     t0 = time.time()
     wd = vlib.workdir(pid)
     bins = vlib.build(["paynet"])
@@ -746,6 +868,7 @@ def run_check(pid, tier, seed, mc_cfgs, compile_fn, random_fn, n_tlc, n_rand, ne
         rest = got.get("rest", []) if isinstance(got, dict) else got
         must = must[:per]
         chosen += must + rng.sample(rest, min(len(rest), per - len(must)))
+    mutant_res = run_spec_mutants(pid, spec["mc"], mc_mutants) if mc_mutants else []
     conv = [compile_fn(s, rng, consts) for s in chosen]
     rand = [random_fn(rng, consts) for _ in range(n_rand)]
 
@@ -804,7 +927,7 @@ def run_check(pid, tier, seed, mc_cfgs, compile_fn, random_fn, n_tlc, n_rand, ne
 
     st = None
     if nviol == 0 and accepted:
-        st = selftest(pid, wd, accepted[-1], selftests)
+        st = selftest(pid, wd, accepted[::-1] if pid == "C04" else accepted[-1], selftests)
         vlib.log("[selftest] %s" % st)
 
     samples = conv[:1] + rand[:1]
@@ -818,7 +941,7 @@ def run_check(pid, tier, seed, mc_cfgs, compile_fn, random_fn, n_tlc, n_rand, ne
                      "action_coverage": {a: r["coverage"].get(a, 0) for a in spec["actions"]}, "wall_s": round(r["wall_s"], 1)} for c, r in mcs],
         "scripts_from_tlc": len(conv), "random_scripts": len(rand), "events_validated": total_events,
         "engine": summs, "observed": stats, "code_constants": consts, "binding_selftest": st, "exhaustive": False,
-        "finding_probes": probe_res,
+        "finding_probes": probe_res, "spec_mutants_refuted": mutant_res,
     }
     vlib.write_evidence(pid, tier, seed, "model_checking", covd, assumptions, time.time() - t0, nviol)
     return nviol
